@@ -32,7 +32,7 @@ PROFILES = {
     # fill3_sample: simulated walks of LLexFill for longer contents;
     # extra_programs: programs (beyond all_sites_programs) that get seeded
     # single sites and parentheses in addition to the all-spaces layout
-    'quick': dict(ex_fuel=1, all_sites_programs=15, sampled_sites=1,
+    'quick': dict(ex_fuel=1, all_sites_programs=8, sampled_sites=1,
                   extra_programs=None,
                   sim_num=24, sim_fuel=4, multi_num=48, multi_depth=4,
                   fill_len=2, fill3_sample=None, hosts=3, shards=6),
@@ -85,6 +85,7 @@ def LayoutOf(place):
   return {'sites': sorted(place['sites'], key=lambda s: (s['b'], s['pos'])),
           'wraps': sorted(place['wraps']),
           'nests': sorted(place.get('nests', []), key=lambda x: x['w']),
+          'empties': sorted(place.get('empties', []), key=lambda e: e['b']),
           'semi': place['semi']}
 
 
@@ -95,6 +96,8 @@ def NoiseKinds(lay):
   for x in lay.get('nests', []):
     ks.append('nest')
     ks.append('nest_' + x['k'])
+  for e in lay.get('empties', []):
+    ks.append('empty' if e['c'] == 0 else 'empty_comment')
   if lay['semi']:
     ks.append('semi')
   return ks
@@ -252,10 +255,10 @@ def Signature(rec, vidx, who, clause, min_lay=None):
     sig['change'] = '%s->%s' % (canon_p['st'], var_p['st'])
   lay = sg.NormLayout(lay)
   single_site = (len(lay['sites']) == 1 and not lay['wraps'] and
-                 not lay['nests'] and not lay['semi'])
+                 not lay['nests'] and not lay['semi'] and not lay['empties'])
   # one pair or one nest of redundant parentheses around a range
   single_wrap = (len(lay['wraps']) + len(lay['nests']) == 1 and
-                 not lay['sites'] and not lay['semi'])
+                 not lay['sites'] and not lay['semi'] and not lay['empties'])
   wrapped = None
   if single_wrap:
     wrapped = tc['ranges'][(lay['wraps'] or [lay['nests'][0]['w']])[0] - 1]
@@ -299,7 +302,8 @@ def Signature(rec, vidx, who, clause, min_lay=None):
     canon_text = sg.Render(tc)
     noisy_text = sg.Render(tc, lay, cfill=cfill, strip_comments=True)
     unary = left == 'op:-' and before not in _OPERAND_END
-    newline = single_site and lay['sites'][0]['k'] in ('nl', 'hash')
+    newline = single_site and lay['sites'][0]['k'] in (
+        'nl', 'hash', 'cr', 'ff', 'vt', 'tab', 'crlf')
     if (unary and ((single_site and right == 'num') or
                    (single_wrap and first == 'num' and
                     wrapped[0] == wrapped[1]))):
@@ -316,6 +320,10 @@ def Signature(rec, vidx, who, clause, min_lay=None):
           (left.startswith('agg:') or left in ('op:+=', 'op:=')) and
           _HasTopLevelEqComparison(toks, wrapped)):
       construct = 'head-value-comparison-with-eq'
+    elif (single_site and sig['change'] == 'ok->rej' and left == 'kw:if' and
+          lay['sites'][0]['k'] in ('cr', 'ff', 'vt', 'tab', 'crlf') and
+          (sig['pos'] == 'L' or not tc['sep'][lay['sites'][0]['b']])):
+      construct = 'keyword-newline:if'
     elif (newline and sig['change'] == 'ok->rej' and
           ((left in ('kw:in', 'kw:combine') and
             (sig['pos'] == 'L' or not tc['sep'][lay['sites'][0]['b']])) or
@@ -332,7 +340,7 @@ def Signature(rec, vidx, who, clause, min_lay=None):
       construct = 'keyword-inside-identifier'
     elif (lay['sites'] and not lay['wraps'] and not lay['nests'] and
           not lay['semi'] and
-          all(s_['k'] in ('sp', 'nl', 'hash') for s_ in lay['sites']) and
+          all(s_['k'] != 'block' for s_ in lay['sites']) and
           all(_EqTokenRightOf(toks, s_['b']) for s_ in lay['sites'])):
       construct = 'concise-combine-eq-misfire'
   sig['construct'] = construct
@@ -382,6 +390,7 @@ def _Elements(lay):
   return ([('site', s) for s in lay['sites']] +
           [('wrap', w) for w in lay['wraps']] +
           [('nest', x) for x in lay.get('nests', [])] +
+          [('empty', e) for e in lay.get('empties', [])] +
           ([('semi', 1)] if lay['semi'] else []))
 
 
@@ -389,6 +398,7 @@ def _LayoutFrom(elements):
   return {'sites': [e[1] for e in elements if e[0] == 'site'],
           'wraps': [e[1] for e in elements if e[0] == 'wrap'],
           'nests': [e[1] for e in elements if e[0] == 'nest'],
+          'empties': [e[1] for e in elements if e[0] == 'empty'],
           'semi': 1 if any(e[0] == 'semi' for e in elements) else 0}
 
 
@@ -578,6 +588,17 @@ def Run(tier):
     free = [b for b in range(n + 1) if not t['glue'][b]]
     vs.append(Variant({'sites': [{'b': b, 'k': 'sp', 'pos': 'L'}
                                  for b in free], 'wraps': [], 'semi': 0}))
+    # CRLF line ends as a whole-file variant, one stray \r / \f / \v / tab at
+    # a token boundary, an extra ';' and a comment-only statement
+    vs.append(Variant({'sites': [{'b': b, 'k': 'crlf', 'pos': 'L'}
+                                 for b in free]}))
+    vs.append(Variant({'sites': [{'b': rng.choice(free),
+                                  'k': rng.choice(['cr', 'ff', 'vt', 'tab']),
+                                  'pos': 'L'}]}))
+    sb = sg.StatementBoundaries(t)
+    vs.append(Variant({'empties': [{'b': rng.choice(sb), 'c': 0}]}))
+    vs.append(Variant({'empties': [{'b': rng.choice(sb),
+                                    'c': rng.choice([1, 2])}]}))
     if t['id'] not in extra_ids:
       continue
     for _ in range(prof['sampled_sites']):
@@ -809,7 +830,8 @@ def Run(tier):
              and not p.startswith('import')]
   missing_noise = [k for k in ['sp', 'nl', 'hash', 'block', 'paren', 'semi',
                                'nest', 'nest_sp', 'nest_nl', 'nest_hash',
-                               'nest_block']
+                               'nest_block', 'tab', 'cr', 'ff', 'vt', 'crlf',
+                               'empty', 'empty_comment']
                    if per_noise.get(k, 0) == 0]
   missing_kind = [k for k in ['noise', 'str_dq', 'str_sq', 'str_tq',
                               'comment_hash', 'comment_block', 'incantation',
